@@ -16,7 +16,7 @@ from pathlib import Path
 
 from . import loader, specs
 
-SUBPKG = {"map": "map", "net": "net", "net/client": "net.client", "net/server": "net.server", "pub": "pub", "pub/server": "pub.server"}
+SUBPKG = {"": "", "map": "map", "net": "net", "net/client": "net.client", "net/server": "net.server", "pub": "pub", "pub/server": "pub.server"}
 
 
 class Program:
@@ -66,7 +66,7 @@ def snake(name):
 def write_tree(files, root, n_families=None, raw=None):
     """files: {relative dir: [nodes]} -> writes <root>/<dir>/protocol.xml for all six directories.
     raw: optional {relative dir: xml text} overriding the rendered text of a file."""
-    for d in specs.FILES:
+    for d in list(specs.FILES) + ([""] if "" in files else []):
         os.makedirs(os.path.join(root, d), exist_ok=True)
         nodes = list(files.get(d, []))
         if d == "net":
